@@ -1311,6 +1311,29 @@ package pokertable
 //@   ensures break-opens-nothing: old(St(te).BlindState.Level) == -1 ==> unchanged(te.table) && unchanged(te.game)
 //@   ensures table-still-there: te.table != nil && St(te) != nil
 
+// the two engine operations that feed the open-game gate (C08: "as soon as the expected players have signalled ...")
+//@ func (*tableEngine).PlayerSettlementFinish
+//@   property C08
+//@   returns err
+//@   requires te != nil && te.table != nil && St(te) != nil && 0 <= len(PS(te)) && len(PS(te)) <= 10 && forall(i, 0, 10, i < len(PS(te)) ==> PS(te)[i] != nil)
+//@   requires ref(te.ogm) != 0 && typeis(te.ogm, "*open_game_manager.openGameManager") && OgmWF(te.ogm)
+//@   modifies te.ogm.state.Participants[playerID].IsReady, log
+//@   ensures unknown-player-refused: !knows(te, playerID) ==> err == ErrTablePlayerNotFound && noCall()
+//@   ensures not-joined-refused: forall(i, 0, 10, i < len(PS(te)) && PS(te)[i].PlayerID == playerID && (forall(j, 0, 10, j < i ==> PS(te)[j].PlayerID != playerID)) && !PS(te)[i].IsIn
+//@             ==> err == ErrTablePlayerInvalidAction && noCall())
+//@   ensures signal-reaches-the-gate: err == nil && indom(te.ogm.state.Participants, playerID) ==> te.ogm.state.Participants[playerID].IsReady
+//@             && ncalls() == old(ncalls()) + 1 && callfn(old(ncalls())) == "(*syncsaga.ReadyGroup).Ready"
+//@             && callarg(old(ncalls()), 0) == te.ogm.state.Participants[playerID].Index
+//@   ensures joined-player-accepted: forall(i, 0, 10, i < len(PS(te)) && PS(te)[i].PlayerID == playerID && (forall(j, 0, 10, j < i ==> PS(te)[j].PlayerID != playerID)) && PS(te)[i].IsIn ==> err == nil)
+
+//@ func (*tableEngine).SetUpTableGame
+//@   property C08
+//@   requires te != nil && ref(te.ogm) != 0 && typeis(te.ogm, "*open_game_manager.openGameManager") && OgmWF(te.ogm) && 0 <= len(participants) && len(participants) <= 10
+//@   modifies te.ogm.state.GameCount, te.ogm.state.Participants, log
+//@   ensures gate-set-up-for-exactly-these: te.ogm.state.GameCount == gameCount && len(te.ogm.state.Participants) == len(participants)
+//@             && all(id, indom(te.ogm.state.Participants, id) <==> indom(participants, id))
+//@   ensures gate-started: callfn(ncalls() - 1) == "(*syncsaga.ReadyGroup).Start" && callrecv(ncalls() - 1) == ref(te.ogm.rg)
+
 // the open-game gate's completion closure (registered by CreateTable): the link between "the gate fired" and "the open is attempted"
 //@ func (*tableEngine).CreateTable$1
 //@   property C08
